@@ -220,7 +220,9 @@ def run(ctx):
             token = f'raw{si}-{tok_n}'
             max_bid = max([r['id'] for r in w.sql('SELECT id FROM batches')] or [0])
             before = digest(w, max_bid)
-            log.add('raw', 'submit', si, mut, ('update-fast', 'multi', 'create-fast')[path_kind], n, announced)
+            # the event KIND carries the mutation and the endpoint, so that the (actor, kind) fingerprint of a run
+            # distinguishes what was submitted, not just how many submissions there were
+            log.add('raw', f'submit:{mut}:{("update-fast", "multi", "create-fast")[path_kind]}', si, n, announced)
             statuses = []
             if path_kind == 0:
                 stt, js = await call('POST', f'/api/v1alpha/batches/{bid}/update-fast',
@@ -249,7 +251,7 @@ def run(ctx):
                                                 'token': token, 'attributes': {'name': f'raw{si}'}},
                                       'bunch': [dict(sp, absolute_parent_ids=[]) for sp in specs], 'job_groups': []})
                 statuses.append(stt)
-            log.add('raw', 'answered', si, mut, tuple(statuses))
+            log.add('raw', 'answered:' + ','.join(str(x) for x in statuses), si, mut)
             await asyncio.sleep(0.5)
             check_committed(w, fail)
             after = digest(w, max_bid)
